@@ -455,7 +455,7 @@ def check(pid, tier, seed, replay=None):
             stats, leads, graphs, live = [], [], {}, []
         else:
             cfgs = THOROUGH_CFGS if thorough else QUICK_CFGS
-            stats, leads = model_check(mdir, pid, cfgs, workers_each=4, timeout=1500 if thorough else 300)
+            stats, leads = model_check(mdir, pid, cfgs, workers_each=4, timeout=3600 if thorough else 600)   # measured: 25 s quick, 5 min thorough on an idle machine; 1500 s was exceeded once with eight other checks running beside
             log("%s: model checked %.0fs" % (pid, time.time() - t0))
             live = liveness(mdir, LIVE_THOROUGH if thorough else LIVE_QUICK) if pid == "C12" else []
             for x in live:
